@@ -233,12 +233,13 @@ fn enumerate(c: &mut Case) {
                 return;
             }
             c.l.count(if foreign { "foreign_id_abort_positions" } else { "active_id_abort_positions" });
+            c.l.sig(mix(crate::rng::hash_bytes(11, &case.wire[..case.wire.len().min(96)]), (at as u64) << 1 | u64::from(foreign)));
             if !foreign && !run_sync(c, &case, j) {
                 return;
             }
         }
     }
-    c.l.sig(mix(crate::rng::hash_bytes(11, &b.wire[..b.wire.len().min(200)]), j as u64));
+    c.l.count("base_connections_fully_enumerated");
 }
 
 pub fn run(ctx: &Ctx, evidence: Option<&PathBuf>) -> i32 {
@@ -260,7 +261,7 @@ pub fn run(ctx: &Ctx, evidence: Option<&PathBuf>) -> i32 {
          before the first record and after EVERY record of one request's preamble and input streams, for the active id and (sampled) for foreign ids; each variant runs through Token::run under the deterministic executor with short / pending transport, and the active-id variants additionally through request::Parser + stream::Parser directly. \
          Oracle: abort during Params => exactly one EndRequest(RequestComplete, id) from the parser, no handler invocation, following requests served with exact environment / streams / EndRequest; abort later => handler reads deliver only a prefix of E(s), never an end-of-file on the aborted stream, the only error kind is ConnectionAborted, \
          exactly one EndRequest(RequestComplete) with app status ABRT if the handler propagated the error and its own status otherwise; foreign-id aborts change nothing (full C07 oracle); sync: AbortRequest reported only once the abort header was fed, repeated by later calls, abort header retained as the unread remainder, next request parsed exactly. \
-         distinct_nontrivial = distinct (base connection digest, target request) whose every position was executed (set).",
+         distinct_nontrivial = distinct (connection, abort position, active/foreign id) variants executed and judged (set).",
         &["handlers that exit with Overloaded/UnknownRole are outside C11 (C07 covers the status mapping)", "reference model spec.rs"],
         false,
         evidence,
